@@ -803,6 +803,7 @@ impl<C: Cache> Cache for MonCache<C> {
 // ---------------------------------------------------------------------------
 // CountingCutoff: the crash point generator
 // ---------------------------------------------------------------------------
+pub const MAX_POLLS: u64 = 150_000;
 pub struct CountingCutoff {
     /// fires from poll number k on (0 = never)
     pub k: u64,
@@ -817,7 +818,9 @@ impl Cutoff for CountingCutoff {
     fn must_stop(&self) -> bool {
         crate::sched::yield_point(crate::sched::Y_CUTOFF_POLL);
         let n = self.polls.fetch_add(1, AO::SeqCst) + 1;
-        let stop = (self.k > 0 && n >= self.k) || self.abort.load(AO::SeqCst);
+        // logical step budget of every run (a tiny / small run polls a few thousand times at most): beyond it the run is
+        // ended and judged inconclusive ("step budget exhausted without witness"), never a violation
+        let stop = (self.k > 0 && n >= self.k) || n >= MAX_POLLS || self.abort.load(AO::SeqCst);
         if stop { self.fired.store(true, AO::SeqCst); }
         stop
     }
